@@ -228,6 +228,44 @@ pub fn stories(prop: &str) -> Vec<Scenario> {
             v.push(f1("C04"));
         }
         "C19" => {
+            // a frame cut by the terminal height leaves the cursor behind its last line; when all
+            // of its rows are then kept as static text the next frame starts on a fresh row
+            v.push(multi(
+                "C19",
+                192,
+                10,
+                2,
+                0,
+                0,
+                vec![
+                    add(0, 0, 10, 0, "{obs}aaa"),
+                    add(0, 0, 10, 0, "{obs}bbb"),
+                    add(0, 0, 10, 0, "{obs}ccc"),
+                    Op::new("tick").n(0),
+                    Op::new("tick").n(1),
+                    Op::new("tick").n(2),
+                    Op::new("finish").n(0).n(0).s(""),
+                    Op::new("finish").n(1).n(0).s(""),
+                    Op::new("drop_all").n(0),
+                    Op::new("drop_all").n(1),
+                    Op::new("tick").n(2),
+                ],
+            ));
+            // ... and so does what is printed after lines above a bar too tall for the terminal
+            v.push(multi(
+                "C19",
+                193,
+                10,
+                2,
+                0,
+                0,
+                vec![
+                    Op::new("add").n(0).n(0).n(1).n(10).n(0).n(8).s("{obs}{msg}").s("fin").s("").s("abcdefghijklmnopqrstuvwxyz"),
+                    Op::new("tick").n(0),
+                    Op::new("mp_println").s("hello"),
+                    Op::new("set_message").n(0).n(0).s("ok"),
+                ],
+            ));
             // a finished bar that never fitted the terminal is reaped by a draw; a later println
             // must not clear rows for it (there are none on the screen)
             v.push(multi(
